@@ -332,7 +332,7 @@ def main(tier, seed):
         samples=[dict(faults=c[1]['faults'], implementation=c[1]['implementation'], yaml=(c[1]['yaml'] or '')[:400])
                  for c in cases[:40] if c[1]['faults'] and c[1]['faults'] != ['benign']][:2],
         source_blobs=repo_blob_ids(['sismic/io/yaml.py', 'sismic/io/datadict.py', 'sismic/model/statechart.py']),
-        proof_info={k: info.get(k) for k in ('build_ok', 'ok', 'closed', 'axioms', 'forbidden_tokens', 'note')})
+        proof_info={k: info.get(k) for k in ('build_ok', 'ok', 'closed', 'axioms', 'forbidden_tokens', 'note', 'coqchk')})
     write_evidence(PROP, tier, seed, t0, cov,
                    ['fault classes as fixed in DESIGN.md section 6 (C12); YAML syntax errors and duplicate mapping keys are '
                     'raised by ruamel, not by sismic, and are outside the listed faults',
